@@ -52,8 +52,10 @@ z = []
 def compile_ready(it):
     """Valid Rust once the derive_where attributes are removed, with Leaf as every type argument."""
     tps = [p.name for p in it.params if p.kind == 'ty']
-    if it.kind == 'union' or not it.variants:
+    if not it.variants:
         return False
+    if it.kind == 'union' and any(bharness.field_kind(f.ty, tps) not in ('u8', 'ph') for v in it.variants for f in v.fields):
+        return False          # union fields must be Copy whatever the parameters are
     if it.ident.rust() in ('isize', 'Option', 'String', 'Vec', 'Box') or it.ident.raw:
         pass
     for p in it.params:
@@ -154,9 +156,66 @@ def normalize_first(it):
     return it
 
 
+def semantic(rng, it, zero):
+    """Meaning-level damage to a compile-ready item (in place): the documented-invalid combinations of C15."""
+    from items import Gen, I, traits_body
+    dws = [a for a in it.attrs if a.kind == 'dw' and a.body.notlist is None and a.body.elems
+           and not isinstance(a.body.elems[0], str) and isinstance(a.body.elems[0], (MPathM, MList))
+           and a.body.elems[0].path.rust() not in ('skip_inner', 'incomparable', 'crate')]
+    r = rng.randrange(8)
+    if r == 0:                      # Default without a default variant
+        for v in it.variants:
+            v.bodies = [b for b in v.bodies if 'default' not in b.rust_inner()]
+    elif r == 1 and it.variants:    # a second default variant
+        rng.choice(it.variants).bodies.append(metas_body([MPathM('default')]))
+    elif r == 2 and dws:            # a lifetime predicate in a bound list
+        a = rng.choice(dws)
+        g = Gen('lifetime', "'static: 'static")
+        a.body.gens = (a.body.gens or []) + ([COMMA_, g] if a.body.gens else [g])
+    elif r == 3:                    # item-level incomparable at a random position
+        it.attrs.insert(rng.randrange(len(it.attrs) + 1), Attr('dw', metas_body([MPathM('incomparable')])))
+    elif r == 4 and dws:            # one more attribute with a different bound list
+        tps = [p.name for p in it.params if p.kind == 'ty']
+        extra = rng.choice(['Debug', 'Hash', 'Clone', 'PartialEq', 'Eq', 'Default'])
+        gens = rng.choice([None, [], [Gen('param', tps[0], I(tps[0]))] if tps else [Gen('custom', 'u8: Copy')]])
+        it.attrs.insert(rng.randrange(len(it.attrs) + 1), Attr('dw', traits_body([MPathM(extra)], gens)))
+    elif r == 5 and dws:            # an unknown / qualified / raw / parametrised trait
+        a = rng.choice(dws)
+        a.body.elems += [COMMA_, rng.choice([MPathM('Foo'), MPathM('a::Clone'), MPathM('r#Clone'), MList('Debug', [MPathM('x')]),
+                                             MNameValue('Debug', 'other')])]
+    elif r == 6 and it.variants:    # skip_inner on a variant, whatever its fields are
+        rng.choice(it.variants).bodies.append(metas_body([MPathM('skip_inner')]))
+    else:                           # shuffle the item's attributes
+        rng.shuffle(it.attrs)
+
+
+COMMA_ = 'comma'
+
+
+def unions(rng, n, zero):
+    """Unions with Copy fields and arbitrary trait lists (only Clone and Copy are supported)."""
+    from items import Field, Gen, I, Item, Param, Variant, traits_body
+    out = []
+    pool = ['Clone', 'Copy', 'Clone', 'Copy', 'Debug', 'PartialEq', 'Default', 'Hash'] + (['Zeroize', 'ZeroizeOnDrop'] if zero else [])
+    for _ in range(n):
+        traits = rng.sample(pool, rng.randint(1, 3))
+        metas = []
+        for t in dict.fromkeys(traits):
+            if t in ('Zeroize', 'ZeroizeOnDrop') and rng.random() < 0.6:
+                metas.append(MList(t, [MNameValue('crate', 'path', P('krate::zeroize'))]))
+            else:
+                metas.append(MPathM(t))
+        gens = rng.choice([None, [Gen('param', 'T', I('T'))], [Gen('custom', 'T: Clone')]])
+        out.append(Item('union', I('A'), [Param('ty', 'T', comma=False)], [], False, [Attr('dw', traits_body(metas, gens))],
+                        [Variant(I('A'), 'named', [Field(I('a'), '::core::marker::PhantomData<T>', []), Field(I('b'), 'u8', [])])]))
+    return out
+
+
 def items_for(prop, seed, n, zero):
     rng = random.Random(seed + 101)
     out = []
+    for it in unions(rng, max(6, n // 12), zero):
+        out.append(('union', decorate(rng, bharness.b_transform(it))))
     # documented-invalid classes with their controls
     for name, it in enumerate_items.all_items(['invalid']):
         if compile_ready(it):
@@ -167,12 +226,20 @@ def items_for(prop, seed, n, zero):
             out.append(('names', decorate(rng, bharness.b_transform(it))))
     # compile-ready random items: valid, and with token-level damage to attribute bodies
     tries = 0
-    while len([1 for s, _ in out if s in ('valid', 'malformed')]) < n and tries < 60 * n:
+    while len([1 for s, _ in out if s in ('valid', 'malformed', 'semantic')]) < n and tries < 60 * n:
         tries += 1
         it = bgen.gen(rng, zero)
         if it is None or not compile_ready(it):
             continue
-        if rng.random() < 0.7:
+        r0 = rng.random()
+        if r0 < 0.25:
+            for v in it.variants:
+                for f in v.fields:
+                    if f.ty in bharness.LEAFLIKE:
+                        f.ty = 'u8'
+            semantic(rng, it, zero)
+            out.append(('semantic', decorate(rng, bharness.b_transform(it))))
+        elif r0 < 0.75:
             for v in it.variants:            # damaged skip lists must not leave a field type without the traits it needs
                 for f in v.fields:
                     if f.ty in bharness.LEAFLIKE:
